@@ -115,6 +115,44 @@ func wrConstrain(name string, w *wrSetup, p data.ND2Float64, nSets int) {
 	}
 }
 
+// wrDocumentedRanges: parameters with a documented range (OW-SPEC '[lo,hi]') are taken inside it
+// (e.g. the time step in [1,86400] s); undocumented ones stay unconstrained.
+func wrDocumentedRanges(w *wrSetup, p data.ND2Float64, nSets int) {
+	for i, pd := range w.desc.Parameters {
+		if !(pd.Range[0] < pd.Range[1]) || len(pd.Dimensions) > 0 {
+			continue
+		}
+		isDim := false
+		for d := range w.desc.Dimensions {
+			if w.dimRow[d] == w.rowOfPar[i] {
+				isDim = true
+			}
+		}
+		if isDim {
+			continue
+		}
+		for c := 0; c < nSets; c++ {
+			v := p.Get2(w.rowOfPar[i], c)
+			vsym.Assume(v >= pd.Range[0] && v <= pd.Range[1])
+		}
+	}
+}
+
+// wrNonNegativeUndocumented: parameters without a documented range are taken >= 0
+func wrNonNegativeUndocumented(w *wrSetup, p data.ND2Float64, nSets int) {
+	for i, pd := range w.desc.Parameters {
+		if pd.Range[0] < pd.Range[1] {
+			continue
+		}
+		for r := w.rowOfPar[i]; r < w.rowOfPar[i]+w.sizeOf[i]; r++ {
+			for c := 0; c < nSets; c++ {
+				v := p.Get2(r, c)
+				vsym.Assume(v >= 0 && v <= 1000000)
+			}
+		}
+	}
+}
+
 func wrConstrainData(name string, inputs data.ND3Float64, states data.ND2Float64) {
 	small := name == "Sacramento" || name == "Storage" || name == "StorageRouting" || name == "ClimateVariables"
 	if !small {
